@@ -22,14 +22,14 @@ def be_value(ex, st, b):
     key = ('be', r.get_id())
     if key not in st.facts_seen:
         st.facts_seen.add(key)
-        st.assume(r >= 0)
-        st.assume(z3.Implies(b.len == 0, r == 0))
+        st.fact(r >= 0)
+        st.fact(z3.Implies(b.len == 0, r == 0))
         for k in range(1, 9):
             e = z3.IntVal(0)
             for j in range(k):
                 t = b.at(z3.IntVal(j))
                 e = e * 256 + t
-            st.assume(z3.Implies(b.len == k, z3.And(r == e, *[z3.And(b.at(z3.IntVal(j)) >= 0, b.at(z3.IntVal(j)) <= 255) for j in range(k)])))
+            st.fact(z3.Implies(b.len == k, z3.And(r == e, *[z3.And(b.at(z3.IntVal(j)) >= 0, b.at(z3.IntVal(j)) <= 255) for j in range(k)])))
     return VInt(r)
 
 
@@ -60,7 +60,7 @@ def install(reg):
             if v.lit is not None:
                 return [(st, VInt(len(v.lit)))]
             f = z3.Function('str_len', StrS, I)
-            st.assume(f(v.t) >= 0)
+            st.fact(f(v.t) >= 0)
             return [(st, VInt(f(v.t)))]
         if isinstance(v, VNone):
             return [(ex.raise_exc(st, 'builtins:TypeError'), None)]
@@ -165,6 +165,16 @@ def install(reg):
         cur = st
         elems = []
         for it in v.items:
+            if isinstance(it, VOpt):
+                nxt = None
+                for s2, inner in ex.force(cur, it, node):
+                    if s2.exc is not None:
+                        out.append((s2, None))
+                    else:
+                        nxt, it = s2, inner
+                if nxt is None:
+                    return out
+                cur = nxt
             t = ex.as_int(it, node)
             ok, e2 = ex.guard(cur, z3.And(t >= 0, t <= 255), 'builtins:ValueError')
             if e2 is not None:
@@ -265,9 +275,9 @@ def install(reg):
         f = z3.Function('bit_length', I, I)
         r = f(x)
         # 2^(r-1) <= |x| < 2^r ; 0 for 0   (stated for x >= 0, the only use)
-        st.assume(r >= 0, z3.Implies(x == 0, r == 0))
+        st.fact(r >= 0, z3.Implies(x == 0, r == 0))
         p = ex.pow2(st, r)
-        st.assume(z3.Implies(x > 0, z3.And(r >= 1, x < p, 2 * x >= p)))
+        st.fact(z3.Implies(x > 0, z3.And(r >= 1, x < p, 2 * x >= p)))
         return [(st, VInt(r))]
 
     @ext('struct.unpack')
@@ -375,7 +385,7 @@ def install(reg):
         valid = z3.Function('valid_utf8', BytesS, Bo)
         dec = z3.Function('utf8_decode', BytesS, StrS)
         r = VBytes.from_term(enc(s.t))
-        st.assume(r.len >= 0, valid(r.t), dec(r.t) == s.t)
+        st.fact(r.len >= 0, valid(r.t), dec(r.t) == s.t)
         if s.lit is not None:
             return [(st, VBytes.const(s.lit.encode('utf-8')))]
         return [(st, r)]
@@ -492,6 +502,16 @@ def install(reg):
     @ext('builtins.list')
     def _list(ex, st, args, kw, node):
         ex.unsupported(node, 'list()')
+
+    @ext('builtins.sum')
+    def _sum(ex, st, args, kw, node):
+        v = args[0]
+        if isinstance(v, VTuple) and all(isinstance(i, (VInt, VBool)) for i in v.items):
+            t = z3.IntVal(0)
+            for i in v.items:
+                t = t + ex.as_int(i, node)
+            return [(st, VInt(z3.simplify(t)))]
+        ex.unsupported(node, 'sum() of %r' % (v,))
 
     @ext('builtins.divmod')
     def _divmod(ex, st, args, kw, node):
